@@ -124,6 +124,24 @@ class TupleOp(Operation):
         return self._operands
 
 
+def _rebuild_tuple_op(old_operation, new_operands, variable_name=True):
+    # matchpy rebuilds operations as type(op)(*new_operands), but TupleOp
+    # takes its operands as one tuple.
+    if variable_name is True:
+        variable_name = old_operation.variable_name
+    if variable_name is False:
+        variable_name = None
+    return TupleOp(tuple(new_operands), variable_name=variable_name)
+
+
+def _register_tuple_op_rebuild():
+    from matchpy.expressions.functions import create_operation_expression
+    create_operation_expression.register(TupleOp)(_rebuild_tuple_op)
+
+
+_register_tuple_op_rebuild()
+
+
 @op_dataclass
 class PymbolicOp(abc.ABC, Operation):
     """
